@@ -8,7 +8,7 @@ import (
 // C16 — upper/lower canonicalise stored and searched values (DESIGN 4/C16).
 
 func init() {
-	drivers["C16"] = &driver{cases: tierN(300, 6000), run: runC16}
+	drivers["C16"] = &driver{cases: tierN(300, 30000), run: runC16}
 }
 
 func caseVariants(s string) []string {
